@@ -85,8 +85,9 @@ class _Capture(logging.Handler):
 class Disp:
     """disposable double: logs enter/exit, yields states, fails or suspends as configured"""
 
-    def __init__(self, world, name, yields=(), enter="ok", exit="ok", shape="list"):
+    def __init__(self, world, name, yields=(), enter="ok", exit="ok", shape="list", spawns=None):
         self.w, self.name, self.yields, self.enter, self.exit, self.shape = world, name, yields, enter, exit, shape
+        self.spawns = spawns  # name of a task this disposable spawns through the context at the start of __aenter__
         self.n_enter = self.n_exit = 0
         self.exit_arg = None
         self.enter_status = "none"  # none | entering | entered | failed | cancelled
@@ -95,6 +96,8 @@ class Disp:
     async def __aenter__(self):
         self.n_enter += 1
         self.enter_status = "entering"
+        if self.spawns is not None:
+            self.w.tasks[self.spawns] = ctx.spawn(self.w.run_task, self.spawns)
         try:
             if self.enter == "suspend":
                 how = await self.w.gate("de:" + self.name)
